@@ -4,7 +4,7 @@ import numpy as np
 import pandas as pd
 import shapely
 
-from glue.core.coordinate_helpers import dependent_axes, pixel2world_single_axis
+from glue.core.coordinate_helpers import world_axis_dependencies, pixel2world_single_axis
 from glue.utils import shape_to_string, coerce_numeric, categorical_ndarray
 
 try:
@@ -296,7 +296,7 @@ class CoordinateComponent(Component):
                     optimize_view = True
 
             pix_coords = []
-            dep_coords = dependent_axes(self._data.coords, self.axis)
+            dep_coords = world_axis_dependencies(self._data.coords, self.axis)
 
             final_slice = []
             final_shape = []
